@@ -2,6 +2,8 @@ package main
 
 import (
 	"fmt"
+
+	"github.com/nspcc-dev/neo-go/pkg/neotest"
 	"math/big"
 
 	"github.com/nspcc-dev/neo-go/pkg/crypto/keys"
@@ -41,7 +43,11 @@ func (w *world) setup(o *hx.Out, k int) {
 	w.aid(np.Hash)
 	// designate the notary node (committee = standby committee at this height)
 	bw := io.NewBufBinWriter()
-	emit.AppCall(bw.BinWriter, w.desigH, "designateAsRole", callflag.All, int64(32), []any{w.notaryKey.PublicKey().Bytes()})
+	var nks []any
+	for _, nk := range w.notaryAll {
+		nks = append(nks, nk.PublicKey().Bytes())
+	}
+	emit.AppCall(bw.BinWriter, w.desigH, "designateAsRole", callflag.All, int64(32), nks)
 	com := w.committeeSigner()
 	w.signer[com.ScriptHash()] = com
 	specs = append(specs, w.rawSpec(bw.Bytes(), 2*gasUnit, val, com.ScriptHash()))
@@ -95,9 +101,9 @@ func (w *world) setup(o *hx.Out, k int) {
 // gen state helpers -----------------------------------------------------------------------------
 
 type genCtx struct {
-	w     *world
-	st    *absState
-	spent map[util.Uint160]int64
+	w        *world
+	st       *absState
+	spent    map[util.Uint160]int64
 	depSpent map[util.Uint160]int64
 }
 
@@ -257,6 +263,9 @@ func (g *genCtx) genCall(signers []util.Uint160, by *util.Uint160, depth int) *c
 		amt := big.NewInt(g.st.regPrice)
 		if r.Chance(1, 6) {
 			amt = big.NewInt(int64(r.Intn(3)) * gasUnit)
+			if r.Bool() {
+				amt = big.NewInt(g.st.regPrice + int64(r.Intn(3)) - 1)
+			}
 		}
 		pub := g.pickPub(false)
 		if r.Chance(3, 4) { // a key whose account signs
@@ -287,11 +296,15 @@ func (g *genCtx) genCall(signers []util.Uint160, by *util.Uint160, depth int) *c
 		return &call{kind: kUnregister, pub: pub}
 	case 7: // notary deposit
 		amt := gasAmt(float64(r.Range(1, 6)))
-		switch r.Intn(10) {
+		switch r.Intn(12) {
 		case 0:
 			amt = big.NewInt(int64(r.Intn(1000)))
 		case 1:
 			amt = big.NewInt(0)
+		case 2:
+			amt = big.NewInt(2 * w.bc.GetNotaryServiceFeePerKey()) // the minimum of a first deposit
+		case 3:
+			amt = big.NewInt(2*w.bc.GetNotaryServiceFeePerKey() - 1)
 		}
 		c := &call{kind: kTransfer, src: src, dst: w.notaryH, amt: amt, data: dNotary, till: height + uint32(r.Range(1, 8))}
 		if d := g.st.deps[src]; d != nil && r.Chance(2, 3) {
@@ -459,6 +472,12 @@ func (g *genCtx) genTx() *txSpec {
 	}
 	g.spent[signers[0]] += need
 	s.signers = signers
+	// the NotaryAssisted attribute on an ordinary (single-signer, multisig excluded) transaction
+	if _, single := w.signer[signers[0]].(neotest.SingleSigner); single && len(signers) == 1 &&
+		w.bc.BlockHeight()+1 >= w.notaryFrom && r.Chance(1, 12) {
+		s.attr = true
+		s.nkeys = uint8(r.Range(0, 4))
+	}
 	return s
 }
 
@@ -518,6 +537,9 @@ func (w *world) randomBlock(o *hx.Out, k int) {
 		}
 		if s := g.genTx(); s != nil {
 			specs = append(specs, s)
+			if s.attr {
+				o.Count("tx:notary-attribute-ordinary-sender")
+			}
 		} else {
 			o.Count("tx:skipped-no-payer")
 		}
